@@ -290,6 +290,21 @@ class Parser:
     def p_import(self, p: P) -> None:
         # Get filepath to import.
         importing_path = p[len(p) - 2]
+
+        # Imports are allowed in the global scope only.
+        scope = self.current_scope()
+        if isinstance(scope, Message):
+            raise ImportInMessageUnsupported(
+                filepath=self.current_filepath(),
+                token=importing_path,
+                lineno=p.lineno(1),
+            )
+        if isinstance(scope, Enum):
+            raise ImportInEnumUnsupported(
+                filepath=self.current_filepath(),
+                token=importing_path,
+                lineno=p.lineno(1),
+            )
         filepath = self._get_child_filepath(importing_path)
 
         # Check if this filepath already in parsing.
